@@ -304,7 +304,10 @@ def oracle_lerax_to_gym(ctx: Ctx, case):
     from lerax.compatibility.gym import LeraxToGymEnv
     from lerax.compatibility.gymnax import LeraxToGymnaxEnv
 
-    lenv = c01._classic(case["env"], None)
+    tl = case.get("time_limit")
+    lenv = c01._classic(case["env"], 5 if tl else None)
+    if tl:
+        lenv = eqx.tree_at(lambda e: e.max_episode_steps, lenv, jnp.asarray(tl, dtype=int))
     fresh = c01.classic_fresh(case["env"])
     tags = {"adapter": case["adapter"], "env": case["env"]}
     isbox = hasattr(lenv.action_space, "low")
@@ -351,7 +354,7 @@ def oracle_lerax_to_gym(ctx: Ctx, case):
                 ctx.check(fresh(gstate.env_state) is None, "C13/adapter/post-done-state-not-fresh", tags=tags)
             else:
                 ctx.check(c01.tree_close(gstate.env_state, nxt), "C13/adapter/state-not-the-successor", tags=tags, step=i)
-    ctx.count(nontrivial=len(case["actions"]) >= 3, classes=[case["adapter"], case["env"]] + ["episode_end"] * bool(ended), key=[case["adapter"], case["env"], case["seed"] % 97, len(case["actions"])])
+    ctx.count(nontrivial=len(case["actions"]) >= 3, classes=[case["adapter"], case["env"]] + ["episode_end"] * bool(ended) + ["time_limited"] * bool(tl), key=[case["adapter"], case["env"], tl, case["seed"] % 97, len(case["actions"])])
 
 
 @functools.lru_cache(maxsize=None)
@@ -413,7 +416,7 @@ def adapter_cases(draw, env, box, bound, n_max=40, adapters=(None,)):
     else:
         h = draw(st.integers(0, bound - 1))
         acts = [h if hold else draw(st.integers(0, bound - 1)) for _ in range(n)]
-    return {"env": env, "seed": draw(st.integers(0, 2**31 - 1000)), "actions": acts, "adapter": draw(st.sampled_from(list(adapters)))}
+    return {"env": env, "seed": draw(st.integers(0, 2**31 - 1000)), "actions": acts, "adapter": draw(st.sampled_from(list(adapters))), "time_limit": draw(st.sampled_from([None, 2, 4, 7]))}
 
 
 def run(ctx: Ctx):
